@@ -262,7 +262,10 @@ class Trench:
         mask = self.zigzag_mask()
         path_collection = poly.intersection(mask)
         coords = []
-        for line in path_collection.geoms:
+        # the clipped hatching can be a single line, or contain isolated points where a line touches a corner
+        for line in getattr(path_collection, 'geoms', [path_collection]):
+            if line.geom_type != 'LineString' or line.is_empty:
+                continue
             self._floor_length += line.length + self.delta_floor
             coords.extend(line.coords)
         return np.array(coords).T
